@@ -162,16 +162,19 @@ structure KOut (α : Type) where
   md : Option (List Md)
   calls : List (Call α)
 
+/-- the branch of `_filter` that computes the boolean array (and, for a function, the calls made) -/
+def computeMask [Zero α] (cs : CS α) (ids : List Id) (md : Option (List Md)) (keep : Keep α)
+    (invert : Bool) : Except Err (List Bool × List (Call α)) :=
+  match keep with
+  | .ids l => (match idMask ids l invert with | .ok m => .ok (m, []) | .error e => .error e)
+  | .pred p => genMask p invert cs 0 ids (mdArgs md ids.length) (List.replicate cs.nMinor 0)
+  | .other => .error .type
+
 /-- `_filter(arr, ids, metadata, index, ids_to_keep, axis, invert)`; `arr` already compressed along
 the filtered axis (major = the filtered axis), `index` = position of each (distinct) ID. -/
 def filterKernel [Zero α] (cs : CS α) (ids : List Id) (md : Option (List Md)) (keep : Keep α)
     (invert : Bool) : Except Err (KOut α) :=
-  let maskCalls : Except Err (List Bool × List (Call α)) :=
-    match keep with
-    | .ids l => (match idMask ids l invert with | .ok m => .ok (m, []) | .error e => .error e)
-    | .pred p => genMask p invert cs 0 ids (mdArgs md ids.length) (List.replicate cs.nMinor 0)
-    | .other => .error .type
-  match maskCalls with
+  match computeMask cs ids md keep invert with
   | .error e => .error e
   | .ok (mask, calls) =>
     match removeRows cs mask with
